@@ -445,7 +445,14 @@ pub fn run_property(p: &PropertyDef, tier: Tier, seed: u64) -> i32 {
     let mut known: BTreeMap<String, u64> = BTreeMap::new();
     let mut samples: Vec<Value> = vec![];
     let mut per_sub: BTreeMap<String, Value> = BTreeMap::new();
+    let only = std::env::var("VERIF_ONLY").ok();
     for (si, sc) in p.subchecks.iter().enumerate() {
+        if let Some(o) = &only {
+            // development aid: run a single sub-check
+            if !o.is_empty() && o != sc.name {
+                continue;
+            }
+        }
         let t0 = Instant::now();
         let results: Vec<ShardResult> = std::thread::scope(|s| {
             let handles: Vec<_> = (0..SHARDS)
